@@ -11,6 +11,7 @@ import YadismModel.Model.Orders
 import YadismModel.Model.XS
 import YadismModel.Model.ApplyPdf
 import YadismModel.Model.Serialize
+import YadismModel.Model.Cache
 
 open Yadism Yadism.Proto
 
@@ -199,6 +200,74 @@ def rdTar : RdM String := do
     | .list l => showL showRes l
   pure (dumped ++ " # " ++ loaded)
 
+def rdCache : RdM String := do
+  let tmcOn ← bool
+  let nops ← nat
+  let mut st : Cache.State := Cache.State.empty
+  let mut outs : List String := []
+  for _ in [0:nops] do
+    let t ← tok
+    if t == "drop" then
+      st := (Cache.step tmcOn st .drop).1
+      outs := outs ++ ["D"]
+    else
+      let obs ← nat
+      let nk ← nat
+      let mut kin : Cache.Kin := []
+      for _ in [0:nk] do
+        let nm ← tok
+        let v ← rat
+        let name ← match nm with
+          | "x" => pure Cache.KName.x | "Q2" => pure Cache.KName.Q2 | "y" => pure Cache.KName.y | _ => failure
+        kin := kin ++ [(name, v)]
+      let useRaw ← bool
+      let r : Cache.Req := ⟨obs, kin, useRaw⟩
+      let hit := (Cache.lookup (st.cacheOf obs) (r.key tmcOn)).isSome
+      let (st', o) := Cache.step tmcOn st (.get r)
+      st := st'
+      match o with
+      | some ob => outs := outs ++ [s!"{if hit then "H" else "M"}:{ob.obs}:{showRat ob.pt.x}:{showRat ob.pt.q2}:{showBool ob.tmc}"]
+      | none => outs := outs ++ ["?"]
+  pure (" ".intercalate outs)
+
+/-- `plan n q2…`: evaluation order and drops of `Runner.get_result` for one observable -/
+def rdPlan : RdM String := do
+  let n ← nat
+  let qs ← rats n
+  pure (" ".intercalate ((Cache.evalPlan qs).map fun (d, i) => s!"{if d then "d" else "-"}{i}"))
+
+partial def parseVal (t : String) : Option Val :=
+  if t == "N" then some .none
+  else if t == "I" then some .inf
+  else if t == "B0" then some (.bool false)
+  else if t == "B1" then some (.bool true)
+  else if t.startsWith "R" then (parseRat? (t.drop 1).toString).map .num
+  else if t.startsWith "S" then some (.str (t.drop 1).toString)
+  else if t.startsWith "O" then ((t.drop 1).toString.toNat?).map .obj
+  else none
+
+partial def showVal : Val → String
+  | .none => "N"
+  | .inf => "I"
+  | .bool b => if b then "B1" else "B0"
+  | .num r => "R" ++ showRat r
+  | .str s => "S" ++ s
+  | .obj i => "O" ++ toString i
+  | .pair a b => "P(" ++ showVal a ++ "," ++ showVal b ++ ")"
+
+def rdCard : RdM Card := do
+  let n ← nat
+  let mut c : Card := []
+  for _ in [0:n] do
+    let k ← tok
+    let vt ← tok
+    let v ← (parseVal vt : Option Val)
+    c := c ++ [(k, v)]
+  pure c
+
+def showCard (c : Card) : String :=
+  " ".intercalate (c.map fun (k, v) => k ++ "=" ++ showVal v)
+
 def showPMap (w : PMap) : String :=
   " ".intercalate (flavorBasisPids.map fun p => showRat (w p))
 
@@ -274,6 +343,16 @@ def handle (op : String) : RdM String := do
       let mn ← rat; let m2w ← rat; let gf ← rat; let pi ← rat
       let (a, b, c) := xsCoeffs kind y x q2 { projectilePID := pid, mn, m2w, gf, pi }
       pure s!"{showRat a} {showRat b} {showRat c}"
+  | "update" => do   -- compatibility.update: update <theory card> <obs card>
+      let t ← rdCard
+      let o ← rdCard
+      match update t o with
+      | .ok (t', o') => pure (showCard t' ++ " ## " ++ showCard o')
+      | .error .unknownScheme => pure "error:unknownScheme"
+      | .error .unknownTarget => pure "error:unknownTarget"
+      | .error .missingKey => pure "error:missingKey"
+  | "cache" => rdCache
+  | "plan" => rdPlan
   | "tar" => rdTar
   | "applypdf" => rdApplyPdf
   | "sv" => rdSv
